@@ -12,14 +12,14 @@ TRUSTED = common.TRUSTED_COMMON
 ASSUMPTIONS = ["the model is an ownership ledger, not a memory model: a double free or use-after-free shows only as a wrong "
                "drop counter / value or as a crash of the harness process (reported with the case as replay)"]
 RULE = ("collection kinds boxed / owned / retrying (+ ref) x containers Vec / Box<[T]> / array / tuple x Mutex / RwLock / "
-        "Poisonable<Mutex> members x sizes 0..4 x paths {plain drop, into_inner, into_child, lock-then-into_inner, get_mut, "
+        "Poisonable<Mutex> members x sizes 0..4 x paths {plain drop, drop by unwinding, into_inner, into_child, lock-then-into_inner, get_mut, "
         "into_iter, into_iter dropped half-way, from_iter, extend, try_new rejecting an input that owns values, try_new accepting, "
         "ref collection over owned data, Default, nested owned-in-boxed, Poisonable::into_child} x a write under the lock at each "
         "position, with drop-counting payloads; exhaustive over that space in both tiers; non-trivial = at least one value; "
         "distinct = distinct case line")
 EXHAUSTIVE = {"quick": True, "thorough": True}
 
-PATHS = {"drop": "PDrop", "into_inner": "PIntoInner", "into_child": "PIntoChild", "lock_then_into_inner": "PLockThenIntoInner",
+PATHS = {"drop": "PDrop", "drop_unwinding": "PDropUnw", "into_inner": "PIntoInner", "into_child": "PIntoChild", "lock_then_into_inner": "PLockThenIntoInner",
          "get_mut": "PGetMut", "into_iter": "PIntoIter", "into_iter_partial": "PIntoIterPartial", "from_iter": "PFromIter",
          "extend": "PExtend", "try_new_reject": "PTryNewReject", "try_new_accept": "PTryNewAccept", "ref_coll": "PRefColl",
          "default": "PDefault", "nested_into_inner": "PNestedIntoInner", "poisonable_into_inner": "PPoisonableIntoInner"}
@@ -49,7 +49,7 @@ def gen(tier, rng):
                 for n in range(0, 5):
                     if cont == "tup" and n == 0:
                         continue
-                    for path in ("drop", "into_inner", "into_child", "lock_then_into_inner"):
+                    for path in ("drop", "drop_unwinding", "into_inner", "into_child", "lock_then_into_inner"):
                         wl = [None]
                         if path in ("into_inner", "into_child") and kind != "owned":
                             wl += list(range(n))
